@@ -571,6 +571,8 @@ class StmtMixin:
         s = st.fork()
         self.havoc_for_loop(s, node.body, lp, {})
         self.assume_invariant(s, lp, {})
+        if lp.invariant:
+            self.oblige(f"cover.loop@{node.lineno}", s, z3.BoolVal(False), node.lineno, "cover", "loop invariant is satisfiable")
         outs: List[Out] = []
         var0 = None
         if lp.variant:
@@ -652,6 +654,8 @@ class StmtMixin:
         s.assume(i >= 0)
         s.assume(i <= n)
         self.assume_invariant(s, lp, {idx_name: iv})
+        if lp.invariant:
+            self.oblige(f"cover.loop@{node.lineno}", s, z3.BoolVal(False), node.lineno, "cover", "loop invariant is satisfiable")
         outs = []
         for s2, more in self.branch(s, i < n):
             if not more:
